@@ -30,6 +30,7 @@ Inductive panic :=
 | PUnreachable             (* an unreachable!() / unwrap that the theorems show unreachable *)
 | PTextEqDebug             (* debug_assert in text_eq                                       *)
 | PFromRaw                 (* Syntax::from_raw on an out-of-range raw kind                  *)
+| PCharBoundary            (* str slicing at a byte offset that is not a character boundary *)
 | POther.
 
 Inductive res (A : Type) : Type := Ok (a : A) | Panic (p : panic).
